@@ -307,11 +307,36 @@ def _forcing_sites(ctx: Ctx, r: RuleResult) -> int:
                 where = f'{mod.relpath}:{node.lineno}'
                 ty = ast.unparse(node.args[0]) if node.args else '?'
                 fname = fi.qualname if fi else '<class body>'
-                if fi is None and isinstance(fa, ast.Constant) and node.args and _fixed_type_arg(ctx, mod, node.args[0]):
+                if fi is None and isinstance(fa, ast.Constant) and (node.args and _fixed_type_arg(ctx, mod, node.args[0]) or _validator_forces_fixed_type(ctx, mod, node)):
                     r.ok(f'{node.func.id}({ty}, {flag}=True) as a field validator')
                 else:
                     r.fail(f'{fname}:{node.func.id}', f'{node.func.id}(force) used outside a field declaration or with a non-constant type {ty}', where)
     return n_force
+
+
+def _validator_forces_fixed_type(ctx: Ctx, mod, node: ast.Call) -> bool:
+    """the validator object this call builds, applied to (owner, attribute, value), narrows exactly `value`, to a constant
+    DataType or to a parameter type of the owner's own operator"""
+    from .terms import Lam, New as TNew, _State, Attr as TAttr, EnumMember
+    from .util import method_calls as mcalls
+    vt = ctx.ev.expr(node, _State(), mod, None, 0)
+    if not isinstance(vt, (Lam, TNew)):
+        return False
+    owner, val = Sym('owner', 'HplExpression'), Sym('value')
+    st = _State()
+    ctx.ev.apply(vt, (owner, Sym('attribute'), val), (), st, 0)
+    calls = [c for c in mcalls(list(st.effects) + list(st.trace), '_type_check') if call_recv(c) == owner]
+    if not calls:
+        return False
+    for c in calls:
+        if len(c.args) < 2 or c.args[0] != val:
+            return False
+        t = c.args[1]
+        fixed = isinstance(t, EnumMember) or (isinstance(t, Op) and t.op in ('|', '&')) or \
+            (isinstance(t, TAttr) and t.name.startswith('parameter') and t.base == TAttr(owner, 'operator'))
+        if not fixed:
+            return False
+    return True
 
 
 def _fixed_type_arg(ctx: Ctx, mod, node: ast.expr) -> bool:
